@@ -2,14 +2,14 @@
 // counterexample(s) found by CBMC and reproduced natively (dev and release-like profile); replay with:
 //   /verif/check --replay /verif/replay/C06-c06-quick-exclude_range_1.rs
 // HARNESS c06::quick::exclude_range_1
-// CEX ["\"\"exclusion result is contained in the original\"\"", "vec![0], vec![0, 0, 0, 0, 0, 0, 0, 0], vec![0], vec![0, 0, 0, 0, 0, 0, 0, 0], vec![1], vec![1], vec![0, 0, 0, 0, 0, 0, 0, 0], vec![0], vec![0], vec![0, 0, 0, 0, 0, 0, 0, 0], vec![1], vec![0], vec![0], vec![0], vec![0, 0, 0, 0, 0, 0, 0, 64], vec![1], vec![0, 0, 0, 0, 0, 0, 0, 64], vec![1], vec![1], vec![0, 0, 0, 0, 0, 0, 0, 64], vec![1], vec![0, 0, 0, 0, 0, 0, 0, 0], vec![1], vec![0, 0, 0, 0, 0, 0, 0, 8], vec![0], vec![0, 0, 0, 0, 0, 0, 0, 8], vec![1], vec![1], vec![0, 0, 0, 0, 0, 0, 0, 0], vec![1], vec![0, 0, 0, 0, 0, 0, 0, 8],"]
+// CEX ["assertion: \"\"exclusion result is contained in the original\"\"", "vec![0], vec![252, 255, 255, 255, 255, 255, 232, 206], vec![1], vec![252, 255, 255, 255, 255, 255, 232, 198], vec![1], vec![3], vec![252, 255, 255, 255, 255, 255, 232, 206], vec![3], vec![253, 255, 255, 255, 255, 255, 255, 7], vec![1], vec![6, 0, 0, 0, 0, 0, 47, 204], vec![0], vec![0], vec![0], vec![0], vec![2, 0, 0, 0, 0, 0, 0, 224], vec![1], vec![0, 0, 0, 0, 0, 0, 0, 0], vec![1], vec![2], vec![0, 0, 0, 0, 0, 0, 0, 0], vec![1], vec![2, 0, 0, 0, 0, 0, 0, 128],"]
 
 #[cfg(kani)]
 mod verif_playback {
-    // counterexample for check: ""exclusion result is contained in the original""
+    // counterexample for check: assertion: ""exclusion result is contained in the original""
     #[test]
     fn verif_replay_0() {
-        let concrete_vals: Vec<Vec<u8>> = vec![vec![0], vec![0, 0, 0, 0, 0, 0, 0, 0], vec![0], vec![0, 0, 0, 0, 0, 0, 0, 0], vec![1], vec![1], vec![0, 0, 0, 0, 0, 0, 0, 0], vec![0], vec![0], vec![0, 0, 0, 0, 0, 0, 0, 0], vec![1], vec![0], vec![0], vec![0], vec![0, 0, 0, 0, 0, 0, 0, 64], vec![1], vec![0, 0, 0, 0, 0, 0, 0, 64], vec![1], vec![1], vec![0, 0, 0, 0, 0, 0, 0, 64], vec![1], vec![0, 0, 0, 0, 0, 0, 0, 0], vec![1], vec![0, 0, 0, 0, 0, 0, 0, 8], vec![0], vec![0, 0, 0, 0, 0, 0, 0, 8], vec![1], vec![1], vec![0, 0, 0, 0, 0, 0, 0, 0], vec![1], vec![0, 0, 0, 0, 0, 0, 0, 8],];
+        let concrete_vals: Vec<Vec<u8>> = vec![vec![0], vec![252, 255, 255, 255, 255, 255, 232, 206], vec![1], vec![252, 255, 255, 255, 255, 255, 232, 198], vec![1], vec![3], vec![252, 255, 255, 255, 255, 255, 232, 206], vec![3], vec![253, 255, 255, 255, 255, 255, 255, 7], vec![1], vec![6, 0, 0, 0, 0, 0, 47, 204], vec![0], vec![0], vec![0], vec![0], vec![2, 0, 0, 0, 0, 0, 0, 224], vec![1], vec![0, 0, 0, 0, 0, 0, 0, 0], vec![1], vec![2], vec![0, 0, 0, 0, 0, 0, 0, 0], vec![1], vec![2, 0, 0, 0, 0, 0, 0, 128],];
         kani::concrete_playback_run(concrete_vals, crate::c06::quick::exclude_range_1);
     }
 }
